@@ -1,0 +1,49 @@
+//go:build verif
+
+package metricstorage
+
+// Contracts for the verification framework in /verif (comment-only file, build tag `verif`).
+
+// ghost count of applications to the ungrouped vectors
+//@ ghost nVec int
+//@ trusted func (*MetricStorage).CounterAdd
+//@   modifies nVec
+//@   ensures nVec == old(nVec) + 1
+//@ trusted func (*MetricStorage).GaugeSet
+//@   modifies nVec
+//@   ensures nVec == old(nVec) + 1
+//@ trusted func (*MetricStorage).HistogramObserve
+//@   modifies nVec
+//@   ensures nVec == old(nVec) + 1
+
+// number of explicit expire operations among ops[0..i)
+//@ specfn nExp(ops []operation.MetricOperation, i int) int
+//@   axiom i <= 0 ==> result == 0
+//@   axiom i > 0 ==> result == nExp(ops, i-1) + ite(ops[i-1].Action == "expire", 1, 0)
+
+// C16: the group is expired first, then every operation of the batch is applied exactly once
+// with its own name and value.
+//@ func (*MetricStorage).applyGroupOperations
+//@   prop C16
+//@   requires group != ""
+//@   requires forall(j, 0, len(ops), operation.Valid(ops[j]) && operation.Normalized(ops[j]) && ops[j].Group == group)
+//@   modifies vault.nExpire, vault.nApply, vault.lastKind, vault.lastGroup, vault.lastName, vault.lastValue
+//@   ensures [expire-first] vault.nExpire == old(vault.nExpire) + 1 + nExp(ops, len(ops))
+//@   ensures [once-each]    vault.nApply == old(vault.nApply) + len(ops) - nExp(ops, len(ops))
+//@   loop 1
+//@     invariant 0 <= iter() && iter() <= len(ops)
+//@     invariant vault.nExpire == old(vault.nExpire) + 1 + nExp(ops, iter())
+//@     invariant [once-each] vault.nApply == old(vault.nApply) + iter() - nExp(ops, iter())
+//@     invariant [args] iter() > 0 && ops[iter()-1].Action != "expire" ==> vault.lastGroup == group && vault.lastName == ops[iter()-1].Name
+//@        && vault.lastValue == *ops[iter()-1].Value && vault.lastKind == ops[iter()-1].Action
+
+// C16: a validated ungrouped batch cannot fail half-way (grouped metrics are already applied by then).
+//@ func (*MetricStorage).sendBatchV0
+//@   prop C16
+//@   requires forall(j, 0, len(ops), operation.Valid(ops[j]) && ops[j].Group == "")
+//@   modifies nVec
+//@   ensures [no-partial] result == nil
+//@   ensures [once-each]  m != nil ==> nVec == old(nVec) + len(ops)
+//@   loop 1
+//@     invariant 0 <= iter() && iter() <= len(ops)
+//@     invariant nVec == old(nVec) + iter()
